@@ -239,7 +239,7 @@ func c11Run(env *core.Env, idx int) core.CaseResult {
 	// relative spellings are taken against a real working directory
 	if env.Workdir != "" {
 		// the working directory changes from case to case: a relative spelling is taken against the current one
-		d := fmt.Sprintf("%s/cwd%d", env.Workdir, idx%3)
+		d := fmt.Sprintf("%s/cwd%d", env.Workdir, (idx/3)%3)
 		_ = os.MkdirAll(d, 0o755)
 		_ = os.Chdir(d)
 	}
